@@ -16,13 +16,14 @@ mod rtrcodec;
 mod scenario;
 mod tape;
 mod source;
+mod c06;
 mod c07;
 mod c08;
 
 use scenario::{Scenario, Tier};
 
 fn scenarios() -> Vec<Box<dyn Scenario>> {
-    vec![Box::new(c07::C07), Box::new(c08::C08)]
+    vec![Box::new(c06::C06), Box::new(c07::C07), Box::new(c08::C08)]
 }
 
 fn main() {
